@@ -82,11 +82,37 @@ class Sym:
         self.b = body
         self.F = body.f
         self.nparams = body.mir["arg_count"]
+        self._prom = {}
+
+    def promoted(self, idx):
+        """Value of promoted constant #idx of this body (a reference to a constant value)."""
+        if idx in self._prom:
+            return self._prom[idx]
+        res = ("promoted", self.b.path, idx)
+        proms = self.b.d.get("promoted") or []
+        if idx < len(proms):
+            pb = engine.Body(self.F, {"path": self.b.path + "::{promoted#%d}" % idx, "kind": "Promoted", "mir": proms[idx]})
+            try:
+                ps = [p for p in Sym(pb).paths(max_paths=8) if p.end == "return"]
+            except PathLimit:
+                ps = []
+            if len(ps) == 1:
+                r = ps[0].ret
+                if r[0] == "ref" and r[2][0] == "lv":
+                    v = ps[0].env["locals"].get(r[2][1])
+                    if v is not None:
+                        r = ("ref", r[1], v)
+                res = r
+        self._prom[idx] = res
+        return res
 
     # ---------------------------------------------------------- expressions
     def operand(self, env, op):
         if "const" in op:
-            return _const_expr(self.F, op["const"])
+            e = _const_expr(self.F, op["const"])
+            if e[0] == "promoted" and e[1] == self.b.path:
+                return self.promoted(e[2])
+            return e
         pl = op.get("copy") or op.get("move")
         if pl is None:
             return ("other", str(op))
